@@ -620,6 +620,9 @@ def num_eval(e, env: dict, funcs: dict):
             if bool_eval(cond, env, funcs):
                 return num_eval(val, env, funcs)
         return float("nan")
+    if type(e) is sp.atanh:
+        x = num_eval(e.args[0], env, funcs)          # Re artanh(x): the code takes .real of the complex value
+        return 0.5 * math.log(abs((1 + x) / (1 - x)))
     if type(e) in _TRANSC:
         return getattr(math, _TRANSC[type(e)])(num_eval(e.args[0], env, funcs))
     if isinstance(e, sp.Function):
